@@ -36,10 +36,12 @@ def source_for(prog, kind):
     body = " ".join(forms)
     if kind == "lazy":
         # several top-level forms; the last one gives the value
-        return "(defn MAIN [] %s)\n(setv UNUSED 1)\n(MAIN)" % body
+        return "(defn MAIN [] %s)\n(setv UNUSED [:kw 'q])\n(MAIN)" % body
+    # a keyword literal and a quoted form compile to code that needs the run-time `hy` module, whatever the caller's
+    # dictionary binds `hy` to
     if kind == "do-expr":
-        return "(do (defn MAIN [] %s) (MAIN))" % body
-    return "((fn [] %s))" % body
+        return "(do (defn MAIN [] %s) :kw '(q :k) (MAIN))" % body
+    return "((fn [] :kw '[q] %s))" % body
 
 
 def run_history(case):
